@@ -790,8 +790,20 @@ def native_main(a):
             base = len(s.problem.started)
             s.problem.fn = lambda ys, i: zs_new[i - base] if 0 <= i - base < len(zs_new) else 0.0
             pre = pre_snapshot(mods, s, items, N)
-            s.DoGlobalIteration(1)
-            cl = [(l, c) for (l, kind, c) in step_clauses(mods, s, pre, want=want) if kind == 'P' or a.get('all_kinds')]
+            if a.get('solve'):
+                import io
+                import contextlib
+                buf = io.StringIO()
+                with contextlib.redirect_stdout(buf):
+                    cl3, _ = loop_clauses(mods, s, pre, g('eps', 1e-9), int(g('iters_limit', 10 ** 6)), _Lines(buf))
+                cl = [(l, c) for (l, kind, c) in cl3]
+            else:
+                s.DoGlobalIteration(1)
+                cl = [(l, c) for (l, kind, c) in step_clauses(mods, s, pre, want=want) if kind == 'P' or a.get('all_kinds')]
+        elif a['level'] == 'guard':
+            s = make_solver(mods, P(1, lower, upper, lambda ys, i: 0.0), 2.5, 0.01, 1000)
+            cl = guard_clauses(mods, s, g('eps', 0.01), int(g('iters_limit', 1)), int(g('iterations', 1)),
+                               INF if g('accuracy_is_inf', True) else g('min_delta', 1.0))
         elif a['level'] == 'prefix':
             r = a['r']
             f = prefix_function(a['seed'], N)
@@ -815,6 +827,36 @@ def native_main(a):
             def fresh_image(x):
                 return list(Ev(lower, upper, N, s.evolvent.evolventDensity).GetImage(x))
             cl = run_clauses(mods, s, s.problem, L, want, r, N, fresh_image=fresh_image)
+        elif a['level'] == 'scenario':
+            cfg = a['cfg']
+            N = cfg['N']
+            f = prefix_function(cfg.get('seed', 0), N)
+            kpre = cfg.get('kpre', 0)
+            zs = [g('z%d' % j, 0.0) for j in range(cfg.get('nsym', 8))]
+            memo = {}
+            fail = cfg.get('fail')
+
+            def obj(ys, i):
+                if fail and i == fail[0]:
+                    raise EXC_TYPES[fail[1]]()
+                if i < kpre:
+                    return f([float(y) for y in ys])
+                key = tuple(round(float(y), 12) for y in ys)
+                if key not in memo:
+                    j = len(memo)
+                    memo[key] = zs[j] if j < len(zs) else 0.0
+                return memo[key]
+            import io
+            import contextlib
+            buf = io.StringIO()
+            with contextlib.redirect_stdout(buf):
+                ctx = run_scenario(mods, cfg, obj, cfg['r'], g('eps', cfg.get('eps_value', 1e-9)) if cfg.get('eps') == 'sym' else cfg.get('eps', 1e-9))
+            ctx['prints'] = buf.getvalue().splitlines()
+            cl = scenario_clauses(mods, ctx, want)
+            if a.get('extra_clauses'):
+                import importlib
+                modname, fn = a['extra_clauses']
+                cl += getattr(importlib.import_module(modname), fn)(mods, ctx, want)
         else:
             return ['(unknown replay level)'], True
     except Exception as e:     # an exception out of the public interface / kernel on valid input is itself the violation
@@ -825,6 +867,14 @@ def native_main(a):
             if l not in bad:
                 bad.append(l)
     return bad, False
+
+
+class _Lines:
+    def __init__(self, buf):
+        self.buf = buf
+
+    def __iter__(self):
+        return iter(self.buf.getvalue().splitlines())
 
 
 REPLAY_TEMPLATE = """# native replay (no shims, the repository's own interpreter): exit 1 = the violation reproduces on the code in IOPT_REPO
@@ -838,3 +888,167 @@ for b in bad:
     print('REPRODUCED' if not unusable else 'UNUSABLE', b)
 sys.exit(1 if (bad and not unusable) else 0)
 """
+
+
+# ----------------------------------------------------------------------------------------------
+# scenarios: one description drives the symbolic run and the native replay alike
+EXC_TYPES = {
+    'RuntimeError(msg)': lambda: RuntimeError('objective failed'),
+    'ValueError()': lambda: ValueError(),
+    'KeyboardInterrupt()': lambda: KeyboardInterrupt(),
+    'SystemExit(3)': lambda: SystemExit(3),
+    'GeneratorExit()': lambda: GeneratorExit(),
+    'UserBaseException()': lambda: _UserBase(),
+    'AssertionError()': lambda: AssertionError(),
+}
+
+
+class _UserBase(BaseException):
+    pass
+
+
+def run_scenario(mods, cfg, objective, r, eps, prints=None, after_create=None):
+    """cfg: N, script, iters_limit, density, refine, sibling, overrides (listener callbacks), console (mode or None).
+    objective(ys, idx) is the main solver's objective.  Returns a context dict."""
+    P = problem_class(mods)
+    N = cfg['N']
+    lower, upper = cfg.get('box') or NBOXES[N]
+    prob = P(N, lower, upper, objective)
+    s = make_solver(mods, prob, r, eps, cfg.get('iters_limit', 10 ** 6), density=cfg.get('density'), refine=cfg.get('refine', False))
+    ctx = {'solver': s, 'prob': prob, 'N': N, 'r': r, 'eps': eps, 'cfg': cfg, 'returned': [], 'prints': prints,
+           'lower': lower, 'upper': upper, 'polls': []}
+    sib = None
+    if cfg.get('sibling'):
+        # another live solver (different dimension unless 'same', different box, its own objective)
+        N2 = N if cfg['sibling'] == 'same' else (N % 3) + 1
+        lo2 = [v - 1.25 for v in NBOXES[N2][0]]
+        up2 = [v + 0.5 for v in NBOXES[N2][1]]
+        f2 = prefix_function(cfg.get('seed', 0) + 1, N2)
+        p2 = P(N2, lo2, up2, lambda ys, i: f2([float(y) for y in ys]))
+        sib = make_solver(mods, p2, 3.0, 1e-9, 10 ** 6, density=cfg.get('density'), refine=cfg.get('refine', False))
+        ctx['sibling'] = sib
+    if after_create is not None:
+        after_create(ctx)
+    L = None
+    if cfg.get('overrides') is not None:
+        L = listener_class(mods, tuple(cfg['overrides']))()
+        s.AddListener(L)
+    ctx['listener'] = L
+    if cfg.get('console'):
+        s.AddListener(mods.listener.ConsoleFullOutputListener(mode=cfg['console'], iters=cfg.get('console_iters', 1)))
+    for st in cfg['script']:
+        if st[0] == 'iter':
+            s.DoGlobalIteration(st[1])
+        elif st[0] == 'solve':
+            n0 = len(prob.started)
+            sol = s.Solve()
+            ctx['returned'].append(('solve', sol, snapshot_solution(sol), n0, len(prob.started)))
+        elif st[0] == 'results':
+            sol = s.GetResults()
+            ctx['polls'].append(snapshot_solution(sol))
+        elif st[0] == 'keep':
+            sol = s.GetResults()
+            ctx['returned'].append(('keep', sol, snapshot_solution(sol), len(prob.started), len(prob.started)))
+        elif st[0] == 'other' and sib is not None:
+            sib.DoGlobalIteration(st[1])
+        elif st[0] == 'other-solve' and sib is not None:
+            sib.Solve()
+        elif st[0] == 'refine':
+            s.DoLocalRefinement(st[1])
+    return ctx
+
+
+def stop_clauses(trials, eps, iters_limit, N, n_before_solve=0):
+    """C03: Solve ends right after the first iteration that subdivides an interval of Hoelder length < eps, or when the
+    budget is exhausted -- never earlier, never later.  `trials` = every trial of the run in order."""
+    out = []
+    pts = [0.0, 1.0]
+    if trials:
+        pts = [0.0, trials[0][0], 1.0]
+    n = len(trials)
+    stop_at = None          # number of trials after which the accuracy criterion first holds
+    for k in range(1, n):
+        xk = trials[k][0]
+        t = None
+        for j in range(1, len(pts)):
+            if LT(xk, pts[j]):
+                t = j
+                break
+        if t is None:
+            return [('STOP: trial inside the partition', False)]
+        d = holder(pts[t] - pts[t - 1], N)
+        if stop_at is None and bool_of(LT(d, eps)):
+            stop_at = k + 1
+        pts.insert(t, xk)
+    exp = iters_limit if stop_at is None else min(stop_at, iters_limit)
+    exp = max(exp, n_before_solve, 1)
+    out.append(('STOP: Solve ends exactly when the accuracy criterion first holds or the budget is exhausted (expected %d trials)' % exp,
+                n == exp))
+    out.append(('BUDGET: the number of evaluations never exceeds itersLimit', n <= max(iters_limit, n_before_solve)))
+    return out
+
+
+def guard_clauses(mods, solver, eps, L, it, md):
+    s = solver
+    s.method.parameters.eps = eps
+    s.method.parameters.itersLimit = L
+    s.method.iterationsCount = it
+    s.searchData.solution.solutionAccuracy = md
+    stop = s.method.CheckStopCondition()
+    exp = bool_of(it >= L) if md == INF else (bool_of(md < eps) or bool_of(it >= L))
+    out = [('C03 GUARD: CheckStopCondition is exactly "accuracy < eps or iterations >= itersLimit"', bool(stop) == exp),
+           ('C03 GUARD: the stop flag mirrors the returned value', s.method.stop is stop)]
+    if not stop:
+        out.append(('C03 RANK: under the loop guard the ranking function itersLimit - iterations is positive', L - it > 0))
+    return out
+
+
+def loop_clauses(mods, solver, pre, eps, L, prints):
+    """Process.Solve from an invariant state with budget for at most one more iteration (L <= iterations + 1)."""
+    prob = solver.problem
+    it0, md0 = pre['iterations'], pre['min_delta']
+    n0 = len(prob.started)
+    sol = solver.Solve()
+    n1 = len(prob.started)
+    stopped_before = bool_of(it0 >= L) if md0 == INF else (bool_of(md0 < eps) or bool_of(it0 >= L))
+    cl = []
+    if stopped_before:
+        cl.append(('C03 LOOP-NOMORE: no evaluation once the stop condition holds', 'P', n1 == n0))
+    else:
+        cl.append(('C03 LOOP-ONE: exactly one iteration when the budget allows one more and the accuracy is not reached', 'P', n1 == n0 + 1))
+        if n1 == n0 + 1:
+            cl += [c for c in step_clauses(mods, solver, pre, want=('C03',))]
+    cl.append(('C03 LOOP-RET: Solve returns the solver\'s solution object', 'P', sol is solver.GetResults()))
+    cl.append(('C03 LOOP-NOEXC: nothing is swallowed by the exception handler of Solve', 'P',
+               not any('Exception was thrown' in p for p in prints)))
+    cl.append(('C03 LOOP-STOPFLAG: after Solve the stop condition holds', 'P', bool_of(solver.method.CheckStopCondition())))
+    return cl, stopped_before
+
+
+def scenario_clauses(mods, ctx, want):
+    s, prob, L, N, r = ctx['solver'], ctx['prob'], ctx['listener'], ctx['N'], ctx['r']
+    Ev = mods.evolvent.Evolvent
+    lower, upper = ctx['lower'], ctx['upper']
+
+    def fresh_image(x):
+        return list(Ev(lower, upper, N, s.evolvent.evolventDensity).GetImage(x))
+    out = run_clauses(mods, s, prob, L, [w for w in want if w in ('C02', 'C04', 'C06', 'C03')], r, N,
+                      fresh_image=fresh_image if N == 1 else None) if L is not None else []
+    cfg = ctx['cfg']
+    if 'C03' in want and L is not None:
+        trials = trials_of(L)
+        solves = [x for x in ctx['returned'] if x[0] == 'solve']
+        if solves:
+            first = solves[0]
+            out += [('C03 ' + l, c) for l, c in stop_clauses(trials[:first[4]], ctx['eps'], cfg.get('iters_limit', 10 ** 6), N, n_before_solve=first[3])]
+            out.append(('C03 RETURN: Solve returns the solution with the reported number of trials = evaluations made',
+                        AND(first[2]['trials'] == first[4], len(prob.done) >= first[4] - (1 if cfg.get('fail') else 0))))
+            for later in solves[1:]:
+                out.append(('C03 AGAIN: Solve on a finished solver performs no further trial', later[3] == later[4]))
+        if ctx['prints'] is not None and not cfg.get('fail'):
+            out.append(('C03 NOEXC: no internal exception is swallowed during Solve', not any('Exception was thrown' in p for p in ctx['prints'])))
+    if 'C04' in want:
+        for (kind, sol, snap, n0, n1) in ctx['returned']:
+            if kind == 'solve' and not cfg.get('refine'):
+                out += [('C04 ' + l, c) for l, c in optimum_clauses(snapshot_solution(sol), prob.done, 'in the returned Solution')]
+    return out
